@@ -47,15 +47,24 @@ def expm_sym(D):
 
 
 def spectral_info(A):
-    """(relative min eigenvalue gap, axis_aligned?) of a symmetric tensor."""
+    """(relative min eigenvalue gap, axis_aligned?, relative spread) of a symmetric tensor."""
     A = 0.5 * (A + A.T)
     nA = float(onp.max(onp.abs(A)))
     if nA == 0.0:
-        return 0.0, True
+        return 0.0, True, 0.0
     w = onp.linalg.eigvalsh(A)
-    gap = float(min(w[1] - w[0], w[2] - w[1]) / max(abs(w[0]), abs(w[2])))
+    sc = max(abs(w[0]), abs(w[2]))
+    gap = float(min(w[1] - w[0], w[2] - w[1]) / sc)
     off = float(max(abs(A[0, 1]), abs(A[0, 2]), abs(A[1, 2])))
-    return gap, bool(off <= 1e-14 * nA)
+    return gap, bool(off <= 1e-14 * nA), float((w[2] - w[0]) / sc)
+
+
+def d8_class(infos):
+    """D8 key: some eigen-solver input has a (nearly) repeated eigenvalue PAIR in a non-axis-aligned frame: the two closest
+    eigenvalues differ by < 1e-8 |lambda|_max (their eigenvectors are rounding noise) and are much closer to each other than
+    to the third one (gap < 1e-3 * spread; a numerically *triple* eigenvalue, where every frame is an eigen-frame, is not
+    in the class)."""
+    return any(g < 1e-8 and g < 1e-3 * sp and not ax for g, ax, sp in infos)
 
 
 # ------------------------------------------------------------------ hardening laws (closed forms)
@@ -202,3 +211,43 @@ def random_unit_deviators(rng, n, form):
         A[:, :2, 2] = 0.0
     A = dev(A)
     return A / fro(A)[:, None, None]
+
+
+# ------------------------------------------------------------------ honest-failure signature of the root finder (finding C09-N1)
+
+def rootfind_budget_signature(law, trial, e_old, dt, max_iters=50):
+    """Structural signature for "the scalar root finder cannot resolve the root within its budget".
+
+    Spec residual along the return direction: g(D) = 3 mu D - (trial - Y(e_old + D)) + overstress(D/dt), D in (0, W],
+    W the library's bracket width.  Its root D* is located here by bisection on a log scale (independent of rtsafe).
+    dx = r_tol / g'(D*) is the half-width of the set of points that meet the residual tolerance.  The documented
+    budget (50 Newton/bisection iterations, x_tol = 0) cannot be expected to succeed when that set is narrower than
+    one floating-point spacing at eqps_old + D* (no representable solution) or than 2^-max_iters of the bracket (more halvings than the budget allows).
+    """
+    mu, Y0 = law.mu, law.Y0
+    Yold = float(law.flow_static(e_old))
+    over0 = trial - Yold
+    if not law.rate or over0 <= 0:
+        return {"match": False, "why": "not rate sensitive or not yielding"}
+    W = (over0 + 10 * TOL_SOLVER * Y0) / (3 * mu)
+
+    def g(D):
+        return 3 * mu * D - (trial - float(law.flow_static(e_old + D))) + float(law.over(D, dt))
+    lo, hi = -320.0, math.log10(W)
+    if g(10.0 ** lo) > 0:
+        Dstar = 10.0 ** lo
+    else:
+        for _ in range(200):
+            mid = 0.5 * (lo + hi)
+            if g(10.0 ** mid) > 0:
+                hi = mid
+            else:
+                lo = mid
+        Dstar = 10.0 ** hi
+    slope = 3 * mu + float(law.slope_static(e_old + Dstar)) + float(law.over(Dstar, dt)) / (law.m * Dstar)
+    dx = TOL_SOLVER * Y0 / slope
+    spacing = float(onp.spacing(e_old + Dstar))
+    n_needed = math.log2(W / dx) if dx > 0 else float("inf")
+    unrepresentable = dx < spacing
+    return {"match": bool(unrepresentable or n_needed >= float(max_iters)), "root_increment": Dstar, "bracket_width": W, "tolerance_band_halfwidth": dx,
+            "spacing_at_root": spacing, "bisections_needed": n_needed, "unrepresentable": bool(unrepresentable)}
